@@ -378,7 +378,8 @@ EXO_LEAVES = [['x y'], ['.dot'], ['d d', 'f\u00fcr.txt'], ['d d', '\u00e9t\u00e9
               ['k.tmp'], ['k.new']]      # outputs named like the cache file plus a suffix
 
 CORRUPT = ['truncate', 'bitflip', 'notgzip', 'empty', 'gzip_nonjson', 'json_nonobject', 'other_software',
-           'newer_format', 'missing_key', 'dir', 'bitflip_inplace', 'bitflip_inplace', 'bad_field', 'bad_field', 'bad_field']
+           'newer_format', 'missing_key', 'dir', 'bitflip_inplace', 'bitflip_inplace', 'bad_field', 'bad_field', 'bad_field',
+           'bad_entry', 'bad_entry']
 
 
 def make_refuse(seed, profile):
@@ -587,6 +588,13 @@ def make_threads(seed, profile):
         progs['bX'] = [dict(inner), {'s': 'write', 'c': 'c2', 'sz': 4}, {'s': 'return'}]
         outer = rnd.choice([{'s': 'sb', 'f': 'sX', 'args': [1]}, {'s': 'bf', 'p': ['ox'], 'f': 'bX', 'args': [1], 'cmp': 'HASH'}])
         direct = {k: v for k, v in inner.items() if k != 'catch'}
+        if seed % 3 == 0:
+            # the recorded nested call had *raised* (and was caught): applying the record moves a regular file at X
+            # aside - which must not be the output another thread has just built there (D37)
+            inner['f'] = 'fR'
+            progs['sX'] = [dict(inner), {'s': 'return'}]
+            progs['bX'] = [dict(inner), {'s': 'write', 'c': 'c2', 'sz': 4}, {'s': 'return'}]
+            direct = dict(direct, f='fW', args=[6])
         par = {'s': 'par', 'branches': [dict(outer), direct] if rnd.random() < 0.5 else [direct, dict(outer)], 'preempt': []}
         # (the record stays valid, so the outer call is served - or rejected - as one step; an outer call that
         # *executes* while the other thread claims X cannot be placed in a sequential order of whole calls)
